@@ -106,7 +106,7 @@ package kv
 //@ func (*DB).Cursor
 //@   requires dbOK(d)
 //@   modifies nothing
-//@   ensures imp(err == nil, result0 != nil && fresh(result0) && result0.Cursor != nil && fresh(result0.Cursor) && gf(result0.Cursor, "snap") == *d.crdt.Mast && 0 <= seqN(*d.crdt.Mast))
+//@   ensures imp(err == nil, result0 != nil && fresh(result0) && result0.Cursor != nil && fresh(result0.Cursor) && gf(result0.Cursor, "snap") == *d.crdt.Mast && 0 <= seqN(*d.crdt.Mast) && seqN(*d.crdt.Mast) == mastSize(*d.crdt.Mast) && 0 <= gf(result0.Cursor, "pos") && gf(result0.Cursor, "pos") <= seqN(*d.crdt.Mast))
 //@   ensures imp(err != nil, result0 == nil)
 
 // Get unwraps the entry at the cursor (every entry of a crdt tree is a crdt.Value)
